@@ -1,7 +1,7 @@
 /-
   C10 (continued) — incremental programs: `#incremental.` and `#step.` boundaries.
 -/
-import PotasscoVerif.Props.C10c
+import PotasscoVerif.Props.C10p
 namespace PotasscoVerif.C10
 open PotasscoVerif PotasscoVerif.CharStream PotasscoVerif.TextIn PotasscoVerif.Decimal PotasscoVerif.AspifOut
 open PotasscoVerif.BufferedStream (isDigit isWs I64MAX)
@@ -22,12 +22,12 @@ def laterText : List StepS → List Nat
   | [] => []
   | s :: r => s.text ++ laterText r
 
-theorem laterText_follows (l : List StepS) : Follows (laterText l) := by
+theorem laterText_follows (l : List StepS) : FollowsC (laterText l) := by
   cases l with
-  | nil => exact Or.inl rfl
-  | cons s r => exact Or.inr ⟨35, _, rfl, Or.inr (Or.inr (Or.inr rfl))⟩
+  | nil => exact Or.inl (Or.inl rfl)
+  | cons s r => exact Or.inl (Or.inr ⟨35, _, rfl, Or.inr (Or.inr (Or.inr rfl))⟩)
 
-theorem progTextX_follows_app (l : List StmtX) (hok : ∀ st ∈ l, st.ok) (K : List Nat) (hK : Follows K) : Follows (progTextX l ++ K) := by
+theorem progTextX_follows_app (l : List StmtX) (hok : ∀ st ∈ l, st.ok) (K : List Nat) (hK : FollowsC K) : FollowsC (progTextX l ++ K) := by
   cases l with
   | nil => simpa [progTextX] using hK
   | cons st r =>
@@ -36,10 +36,10 @@ theorem progTextX_follows_app (l : List StmtX) (hok : ∀ st ∈ l, st.ok) (K : 
 
 /-- the `#step.` marker ends the statement loop of an incremental program -/
 theorem stmtLoop_marker (f : Nat) (a : AS) (acc : List Call) (ws1 ws2 k : List Nat) (h1 : Filler ws1) (h2 : Filler ws2) (hk : NWS k)
-    (hr : a.rest = kwStep ++ (ws1 ++ (46 :: (ws2 ++ k)))) :
+    (ws : List Nat) (hws : Filler ws) (hr : a.rest = ws ++ (kwStep ++ (ws1 ++ (46 :: (ws2 ++ k))))) :
     ∃ a', stmtLoop true (f + 1) a acc = (acc, .ok a') ∧ a'.rest = k := by
   have hnw : NWS (kwStep ++ (ws1 ++ (46 :: (ws2 ++ k)))) := by intro c r e; cases e; decide
-  have hs : a.skipWs.rest = kwStep ++ (ws1 ++ (46 :: (ws2 ++ k))) := skipWs_spec a [] _ (by simpa using hr) (by intro c hc; cases hc) hnw
+  have hs : a.skipWs.rest = kwStep ++ (ws1 ++ (46 :: (ws2 ++ k))) := skipWs_spec a ws _ hr hws hnw
   have hp1 : (peekWs a).1 = 35 := by show a.skipWs.peek = 35; unfold AS.peek; rw [hs]; rfl
   have hp2 : (peekWs a).2 = a.skipWs := rfl
   obtain ⟨a1, e1, r1⟩ := alt_absent kwMinimize dMinimize _ a.skipWs (by rw [hs]; simp [kwMinimize, kwStep, List.isPrefixOf])
@@ -67,30 +67,30 @@ theorem stmtLoop_marker (f : Nat) (a : AS) (acc : List Call) (ws1 ws2 k : List N
   exact ⟨a9, by simp, r9⟩
 
 /-- the statement loop over the statements of a step that is followed by a `#step.` marker -/
-theorem stmtLoop_progK (stmts : List StmtX) (hok : ∀ st ∈ stmts, st.ok) (s : StepS) (hs : s.ok) (tailK : List Nat) (hT : Follows tailK)
-    (f : Nat) (hf : stmts.length + 1 < f) (a : AS) (acc : List Call)
-    (hr : a.rest = progTextX stmts ++ (kwStep ++ (s.ws1 ++ (46 :: (s.ws2 ++ (progTextX s.stmts ++ tailK)))))) :
-    ∃ a', stmtLoop true f a acc = (acc ++ stmts.map StmtX.call, .ok a') ∧ a'.rest = progTextX s.stmts ++ tailK := by
-  have hKfol : Follows (kwStep ++ (s.ws1 ++ (46 :: (s.ws2 ++ (progTextX s.stmts ++ tailK))))) := Or.inr ⟨35, _, rfl, Or.inr (Or.inr (Or.inr rfl))⟩
-  induction stmts generalizing f a acc with
+theorem stmtLoop_progK (stmts : List StmtX) (hok : ∀ st ∈ stmts, st.ok) (s : StepS) (hs : s.ok) (tailK : List Nat) (hT : FollowsC tailK)
+    (f : Nat) (hf : stmts.length + 1 < f) (a : AS) (acc : List Call) (ws : List Nat) (hws : Filler ws)
+    (hr : a.rest = ws ++ (progTextX stmts ++ (kwStep ++ (s.ws1 ++ (46 :: (s.ws2 ++ (progTextX s.stmts ++ tailK))))))) :
+    ∃ a', stmtLoop true f a acc = (acc ++ stmts.flatMap StmtX.calls, .ok a') ∧ a'.rest = progTextX s.stmts ++ tailK := by
+  have hKfol : FollowsC (kwStep ++ (s.ws1 ++ (46 :: (s.ws2 ++ (progTextX s.stmts ++ tailK))))) := Or.inl (Or.inr ⟨35, _, rfl, Or.inr (Or.inr (Or.inr rfl))⟩)
+  induction stmts generalizing f a acc ws with
   | nil =>
     cases f with
     | zero => simp at hf
     | succ f =>
       simp only [progTextX, List.nil_append] at hr
-      obtain ⟨a', h, hr'⟩ := stmtLoop_marker f a acc s.ws1 s.ws2 _ hs.1 hs.2.1 (progTextX_follows_app s.stmts hs.2.2.2 tailK hT).nws hr
+      obtain ⟨a', h, hr'⟩ := stmtLoop_marker f a acc s.ws1 s.ws2 _ hs.1 hs.2.1 (progTextX_follows_app s.stmts hs.2.2.2 tailK hT).nws ws hws hr
       exact ⟨a', by simpa using h, hr'⟩
   | cons st r ih =>
     cases f with
     | zero => simp at hf
     | succ f =>
       simp only [progTextX, List.append_assoc] at hr
-      obtain ⟨a1, h1, hr1⟩ := stmtLoopX_step true f a acc st _ (hok st (by simp))
-        (progTextX_follows_app r (fun x hx => hok x (by simp [hx])) _ hKfol) hr
-      obtain ⟨a2, h2, hr2⟩ := ih (fun x hx => hok x (by simp [hx])) f (by simp at hf; omega) a1 (acc ++ [st.call]) hr1
+      have hfr := progTextX_follows_app r (fun x hx => hok x (by simp [hx])) _ hKfol
+      obtain ⟨a1, ws1, h1, hw1, hr1⟩ := stmtLoopX_step true f a acc st _ (hok st (by simp)) hfr.nws hfr.no91 ws hws hr
+      obtain ⟨a2, h2, hr2⟩ := ih (fun x hx => hok x (by simp [hx])) f (by simp at hf; omega) a1 (acc ++ st.calls) ws1 hw1 hr1
       exact ⟨a2, by rw [h1, h2]; simp, hr2⟩
 
-def stepCalls (stmts : List StmtX) : List Call := [.beginStep] ++ stmts.map StmtX.call ++ [.endStep]
+def stepCalls (stmts : List StmtX) : List Call := [.beginStep] ++ stmts.flatMap StmtX.calls ++ [.endStep]
 def laterCalls : List StepS → List Call
   | [] => []
   | s :: r => stepCalls s.stmts ++ laterCalls r
@@ -110,7 +110,7 @@ theorem stepsLoop_spec (later : List StepS) (hl : ∀ s ∈ later, s.ok) (cur : 
     | zero => simp at hf
     | succ f =>
       simp only [laterText, List.append_nil] at hr
-      obtain ⟨a1, h1, hr1⟩ := stmtLoop_progX true cur hc (a.rest.length + 1) (by rw [hr]; have := progTextX_length cur hc; omega) a [] hr
+      obtain ⟨a1, h1, hr1⟩ := stmtLoop_progX true cur hc (a.rest.length + 1) (by rw [hr]; have := progTextX_length cur hc; omega) a [] [] (by intro c hc'; cases hc') (by simpa using hr)
       have hmore : AspifIn.more a1 = (false, a1.skipWs) := by
         unfold AspifIn.more
         have := skipWs_nil a1 hr1
@@ -124,7 +124,7 @@ theorem stepsLoop_spec (later : List StepS) (hl : ∀ s ∈ later, s.ok) (cur : 
       simp only [laterText, StepS.text, List.append_assoc, List.cons_append] at hr
       have hlen : cur.length + 1 < a.rest.length + 1 := by
         rw [hr]; have := progTextX_length cur hc; simp [kwStep]; omega
-      obtain ⟨a1, h1, hr1⟩ := stmtLoop_progK cur hc s hs (laterText r) (laterText_follows r) (a.rest.length + 1) hlen a [] hr
+      obtain ⟨a1, h1, hr1⟩ := stmtLoop_progK cur hc s hs (laterText r) (laterText_follows r) (a.rest.length + 1) hlen a [] [] (by intro c hc'; cases hc') (by simpa using hr)
       have hfol := progTextX_follows_app s.stmts hs.2.2.2 (laterText r) (laterText_follows r)
       have hne : progTextX s.stmts ++ laterText r ≠ [] := by
         cases hst : s.stmts with
@@ -137,7 +137,7 @@ theorem stepsLoop_spec (later : List StepS) (hl : ∀ s ∈ later, s.ok) (cur : 
       have hsk : a1.skipWs.rest = progTextX s.stmts ++ laterText r := skipWs_spec a1 [] _ (by simpa using hr1) (by intro c hc'; cases hc') hfol.nws
       have hmore : AspifIn.more a1 = (true, a1.skipWs) := by
         unfold AspifIn.more
-        rcases hfol with h0 | ⟨c, t, e, hcc⟩
+        rcases hfol with (h0 | ⟨c, t, e, hcc⟩) | ⟨t, e⟩
         · exact absurd h0 hne
         · have hpk : a1.skipWs.peek = c := by unfold AS.peek; rw [hsk, e]; rfl
           have hc0 : c ≠ 0 := by
@@ -147,51 +147,117 @@ theorem stepsLoop_spec (later : List StepS) (hl : ∀ s ∈ later, s.ok) (cur : 
             · omega
             · omega
           simp [hpk, hc0]
+        · have hpk : a1.skipWs.peek = 37 := by unfold AS.peek; rw [hsk, e]; rfl
+          simp [hpk]
       have := ih (fun x hx => hl x (by simp [hx])) s.stmts hs.2.2.2 f (by simp at hf; omega) a1.skipWs (acc ++ stepCalls cur) hsk
       simp only [stepsLoop, h1, hmore, Bool.not_true, Bool.and_false, Bool.false_eq_true, ↓reduceIte, List.nil_append]
-      have e : acc ++ [Call.beginStep] ++ List.map StmtX.call cur ++ [Call.endStep] = acc ++ stepCalls cur := by simp [stepCalls]
+      have e : acc ++ [Call.beginStep] ++ List.flatMap StmtX.calls cur ++ [Call.endStep] = acc ++ stepCalls cur := by simp [stepCalls]
       rw [e, this]
       simp [laterCalls, List.append_assoc]
 
-/-- an incremental program: `#incremental.`, the statements of the first step, then `#step.`-separated steps -/
+/-- comment lines before `#incremental` -/
+def preText : List CommentS → List Nat
+  | [] => []
+  | c :: r => c.text ++ preText r
+
+theorem preText_nws (pre : List CommentS) (K : List Nat) (hK : ∃ t, K = 35 :: t) : NWS (preText pre ++ K) := by
+  intro x r e
+  cases pre with
+  | nil => obtain ⟨t, h⟩ := hK; simp only [preText, List.nil_append] at e; rw [h] at e; cases e; decide
+  | cons c r' => simp only [preText, CommentS.text, List.cons_append] at e; cases e; decide
+
+theorem skipComments_pre (pre : List CommentS) (hok : ∀ c ∈ pre, c.ok) (K : List Nat) (hK : ∃ t, K = 35 :: t) (f : Nat) (hf : pre.length < f)
+    (a : AS) (hr : a.rest = preText pre ++ K) : (skipComments f a).rest = K := by
+  induction pre generalizing f a with
+  | nil =>
+    cases f with
+    | zero => simp at hf
+    | succ f =>
+      obtain ⟨t, h⟩ := hK
+      simp only [preText, List.nil_append] at hr
+      have hp : a.peek = 35 := by unfold AS.peek; rw [hr, h]; rfl
+      simp [skipComments, hp, hr]
+  | cons c r ih =>
+    cases f with
+    | zero => simp at hf
+    | succ f =>
+      simp only [preText, List.append_assoc] at hr
+      have hcok : c.ok := hok c (by simp)
+      have hnw := preText_nws r K hK
+      have hp : a.peek = 37 := by unfold AS.peek; rw [hr]; rfl
+      have h1 := skipLine_comment a c (preText r ++ K) hcok hnw hr
+      have h2 : (AspifIn.skipLine a).skipWs.rest = preText r ++ K := skipWs_spec _ c.wsAfter _ h1 hcok.2.1 hnw
+      simp only [skipComments, hp, BEq.rfl, ↓reduceIte]
+      exact ih (fun x hx => hok x (by simp [hx])) f (by simp at hf; omega) _ h2
+
+theorem preText_length (pre : List CommentS) : pre.length ≤ (preText pre).length := by
+  induction pre with
+  | nil => simp [preText]
+  | cons c r ih => simp only [preText, CommentS.text, List.length_append, List.length_cons]; omega
+
+/-- an incremental program: (filler, comment lines,) `#incremental.`, the statements of the first step, then `#step.`-separated steps -/
 structure IncProg where
+  ws0   : List Nat
+  pre   : List CommentS
   ws1   : List Nat
   ws2   : List Nat
   first : List StmtX
   later : List StepS
 
-def IncProg.text (p : IncProg) : List Nat := kwIncremental ++ (p.ws1 ++ (46 :: (p.ws2 ++ (progTextX p.first ++ laterText p.later))))
-def IncProg.ok (p : IncProg) : Prop := Filler p.ws1 ∧ Filler p.ws2 ∧ (∀ st ∈ p.first, st.ok) ∧ ∀ s ∈ p.later, s.ok
+def IncProg.body (p : IncProg) : List Nat := kwIncremental ++ (p.ws1 ++ (46 :: (p.ws2 ++ (progTextX p.first ++ laterText p.later))))
+def IncProg.text (p : IncProg) : List Nat := p.ws0 ++ (preText p.pre ++ p.body)
+def IncProg.ok (p : IncProg) : Prop :=
+  Filler p.ws0 ∧ (∀ c ∈ p.pre, c.ok) ∧ Filler p.ws1 ∧ Filler p.ws2 ∧ (∀ st ∈ p.first, st.ok) ∧ ∀ s ∈ p.later, s.ok
 
-/-- **C10 (steps)**: an incremental program — `#incremental.`, then steps separated by `#step.`, each made of the statement kinds of
-    `C10_read_programX`, any filler anywhere — is read as `initProgram(true)` and, per step, `beginStep`, exactly the step's
-    statements, `endStep`; the boundaries fall exactly at the `#step.` markers. -/
+/-- **C10 (steps)**: an incremental program — any filler and comment lines, `#incremental.`, then steps separated by `#step.`, each made
+    of the statement kinds of `C10_read_programX` (comment lines included), any filler anywhere — is read as `initProgram(true)` and,
+    per step, `beginStep`, exactly the step's statements, `endStep`; the boundaries fall exactly at the `#step.` markers. -/
 theorem C10_read_incremental (p : IncProg) (hok : p.ok) :
     TextIn.read p.text = { calls := [.initProgram true] ++ stepCalls p.first ++ laterCalls p.later, err := none } := by
-  obtain ⟨h1, h2, hf, hl⟩ := hok
-  have hfolK : Follows (progTextX p.first ++ laterText p.later) := progTextX_follows_app p.first hf _ (laterText_follows p.later)
-  have hinit : (AS.init p.text).rest = kwIncremental ++ (p.ws1 ++ (46 :: (p.ws2 ++ (progTextX p.first ++ laterText p.later)))) := rfl
-  have hnw : NWS (kwIncremental ++ (p.ws1 ++ (46 :: (p.ws2 ++ (progTextX p.first ++ laterText p.later))))) := by intro c r e; cases e; decide
-  have hs : (AS.init p.text).skipWs.rest = kwIncremental ++ (p.ws1 ++ (46 :: (p.ws2 ++ (progTextX p.first ++ laterText p.later)))) :=
-    skipWs_spec _ [] _ (by simpa using hinit) (by intro c hc; cases hc) hnw
-  have hpk : (AS.init p.text).skipWs.peek = 35 := by unfold AS.peek; rw [hs]; rfl
-  obtain ⟨a2, e2, r2⟩ := C10_tok (AS.init p.text).skipWs kwIncremental p.ws1 _ false hs h1 (sep_dot _).nws
+  obtain ⟨h0, hpre, h1, h2, hf, hl⟩ := hok
+  have hfolK : FollowsC (progTextX p.first ++ laterText p.later) := progTextX_follows_app p.first hf _ (laterText_follows p.later)
+  have hK : ∃ t, p.body = 35 :: t := ⟨_, rfl⟩
+  have hinit : (AS.init p.text).rest = p.ws0 ++ (preText p.pre ++ p.body) := rfl
+  have hs : (AS.init p.text).skipWs.rest = preText p.pre ++ p.body := skipWs_spec _ p.ws0 _ hinit h0 (preText_nws p.pre _ hK)
+  generalize hA : (AS.init p.text).skipWs = A at hs
+  have hfirst : ((A.peek == 0 || isLower A.peek || [46, 35, 37, 123, 58].contains A.peek) = true) := by
+    unfold AS.peek; rw [hs]
+    cases p.pre with
+    | nil => rfl
+    | cons c r => rfl
+  have hsc := skipComments_pre p.pre hpre p.body hK (A.rest.length + 1) (by rw [hs]; have := preText_length p.pre; simp; omega) A hs
+  obtain ⟨a2, e2, r2⟩ := C10_tok (skipComments (A.rest.length + 1) A) kwIncremental p.ws1 _ false hsc h1 (sep_dot _).nws
   obtain ⟨a3, e3, r3⟩ := C10_tok a2 [46] p.ws2 _ true (by rw [r2]; rfl) h2 hfolK.nws
   have hatt : attach (AS.init p.text) = some (.ok (true, a3)) := by
     unfold attach
-    have hsc : ∀ f, skipComments f (peekWs (AS.init p.text)).2 = (AS.init p.text).skipWs := by
-      intro f; cases f with
-      | zero => rfl
-      | succ f => show skipComments (f + 1) (AS.init p.text).skipWs = _; simp only [skipComments, hpk]; rfl
-    show (if ((AS.init p.text).skipWs.peek == 0 || isLower (AS.init p.text).skipWs.peek ||
-        [46, 35, 37, 123, 58].contains (AS.init p.text).skipWs.peek) = true then _ else none) = _
-    rw [hpk]
-    simp only [hsc]
+    show (if ((peekWs (AS.init p.text)).1 == 0 || isLower (peekWs (AS.init p.text)).1 ||
+        [46, 35, 37, 123, 58].contains (peekWs (AS.init p.text)).1) = true then _ else none) = _
+    have hp1 : (peekWs (AS.init p.text)).1 = A.peek := by rw [← hA]; rfl
+    have hp2 : (peekWs (AS.init p.text)).2 = A := by rw [← hA]; rfl
+    rw [hp1, if_pos hfirst]
+    simp only [hp2]
     rw [show ([35, 105, 110, 99, 114, 101, 109, 101, 110, 116, 97, 108] : List Nat) = kwIncremental from rfl, e2]
     simp only [e3]
-    rfl
   have := stepsLoop_spec p.later hl p.first hf (a3.rest.length + 1) (by rw [r3]; have := laterText_length p.later; simp; omega) a3 [.initProgram true] r3
   unfold TextIn.read
   simp only [hatt, this]
+
+/-! non-vacuity: a concrete incremental program with a leading comment, `#output` with nested arguments and a quoted string,
+    a comment between statements, and a second step -/
+def exInc : IncProg :=
+  { ws0 := [32], pre := [⟨[32, 104, 105], .crlf, []⟩], ws1 := [], ws2 := [10],
+    first := [ .output { ws0 := [32], term := .fn 112 [95, 49] [] (some { wsOpen := [], first := [.ch 102 [], .ch 40 [], .ch 97 [], .ch 44 [32], .ch 49 [], .ch 41 []],
+                                                                              more := [([32], [.str ⟨[.ch 104, .esc 34], []⟩])], wsClose := [32] }),
+                         cond := some ⟨[32], [(⟨false, 1, .letter, [], []⟩, [])]⟩, wsDot := [10] },
+               .comment ⟨[120], .lf, [32]⟩,
+               .base (.rule { head := .disj [(⟨1, .letter, []⟩, 59, [])], body := none, wsDot := [10] }) ],
+    later := [ { ws1 := [], ws2 := [10], stmts := [ .output { ws0 := [32], term := .str ⟨[.ch 104], []⟩, cond := none, wsDot := [] } ] } ] }
+
+example : (TextIn.read exInc.text) =
+    { calls := [.initProgram true, .beginStep, .output [112, 95, 49, 40, 102, 40, 97, 44, 49, 41, 44, 34, 104, 92, 34, 34, 41] [1], .rule 0 [1] [], .endStep,
+                .beginStep, .output [34, 104, 34] [], .endStep], err := none } := by decide +kernel
+example : [.initProgram true] ++ stepCalls exInc.first ++ laterCalls exInc.later =
+    [Call.initProgram true, .beginStep, .output [112, 95, 49, 40, 102, 40, 97, 44, 49, 41, 44, 34, 104, 92, 34, 34, 41] [1], .rule 0 [1] [], .endStep,
+                .beginStep, .output [34, 104, 34] [], .endStep] := by decide +kernel
 
 end PotasscoVerif.C10
